@@ -11,6 +11,7 @@ SUITES = {
     "c07": ("MC_C07", "MC_C07.cfg", "MC_C07.cfg", "C07"),
     "c12": ("MC_C12", "MC_C12.cfg", "MC_C12_thorough.cfg", "C12"),
     "c13": ("MC_C13", "MC_C13.cfg", "MC_C13_thorough.cfg", "C13"),
+    "c12deep": ("MC_C12", "MC_C12_deep.cfg", "MC_C12_deep.cfg", "C12"),
     "c04": ("MC_C04", "MC_C04.cfg", "MC_C04_thorough.cfg", "C04"),
     "c06": ("MC_C06", "MC_C06.cfg", "MC_C06.cfg", "C06"),
     "c11": ("MC_C11", "MC_C11.cfg", "MC_C11_thorough.cfg", "C11"),
@@ -32,8 +33,12 @@ def run_suite(chk, suite, tier, workers=6):
                     heap="6g" if tier == "thorough" else "3g")
     C.require_tlc_ok(res, module + " (laws of the suite on the specification)")
     chk.add_tlc(module, res)
-    cases = os.path.join(out, suite + "_cases.ndjson")
+    cases = os.path.join(out, suite.replace("deep", "") + "_cases.ndjson")
     events = os.path.join(out, "events.ndjson")
+    neg = os.path.join(out, suite.replace("deep", "") + "_neg_cases.ndjson")
+    if os.path.exists(neg):
+        with open(cases, "a") as f:
+            f.write(open(neg).read())
     rc, txt = C.run_vh(["lang", cases, events], timeout=3000)
     r = json.loads(txt)
     r["events_path"] = events
